@@ -282,16 +282,17 @@ func (c *Ctx) render(pc []string, goal string, cover bool, cands []string, lens 
 		return b.String()
 	}
 	n := 0
-	in := &instantiator{limit: envInt("GOVC_INST_LIMIT", 600), seen: map[string]bool{}, fresh: &n, max2: envInt("GOVC_CANDS2", 7), lens: lens}
+	in := &instantiator{limit: envInt("GOVC_INST_LIMIT", 1000), seen: map[string]bool{}, fresh: &n, max2: envInt("GOVC_CANDS2", 7), lens: lens}
 	g := goal
 	if strings.Contains(goal, "(forall ") {
 		if t, err := parseSx(goal); err == nil {
 			g = in.skolemize(t).String()
 		}
 	}
-	// skolem constants come first in the candidate list, then the path's index terms, most recent first
+	// candidate order: skolem constants, then the path's index terms (most recent first), then variants
+	var pathCands []string
 	for i := len(cands) - 1; i >= 0; i-- {
-		in.cands = append(in.cands, cands[i])
+		pathCands = append(pathCands, cands[i])
 	}
 	// hypotheses: skolemise their existential content, then instantiate their universal content
 	var parsed []*sx
@@ -311,6 +312,7 @@ func (c *Ctx) render(pc []string, goal string, cover bool, cands []string, lens 
 			parsed = append(parsed, t)
 		}
 	}
+	in.order(pathCands)
 	for _, d := range in.newDecl {
 		b.WriteString(d + "\n")
 	}
